@@ -50,20 +50,25 @@ pub fn classify(tab: &[(i64, i64)], y: i64, m: u32, d: u32, h: u32, mi: u32, s: 
     if ns > 1_000_000_000 {
         return (Want::Reject, "reject/nanos");
     }
-    if h == 24 || ns == 1_000_000_000 {
-        return (Want::DontCare, "dc/hour24-or-ns1e9");
-    }
     if s == 60 {
+        // "second = 60 at any other time of day [than 23:59] or on a date that does not immediately precede an entry" is
+        // an error - also when the hour is the unspecified 24 or the nanoseconds the unspecified 10^9
         if y == 1971 && m == 12 && d == 31 {
             return (Want::DontCare, "dc/1971-12-31-second-60");
         }
         if !insertion_day(tab, y, m, d) {
             return (Want::Reject, "leap/rejected-other-date");
         }
-        if h == 23 && mi == 59 {
-            return (Want::Accept, "leap/accepted-insertion-day");
+        if !(h == 23 && mi == 59) {
+            return (Want::Reject, "leap/rejected-other-time");
         }
-        return (Want::Reject, "leap/rejected-other-time");
+        if ns == 1_000_000_000 {
+            return (Want::DontCare, "dc/hour24-or-ns1e9");
+        }
+        return (Want::Accept, "leap/accepted-insertion-day");
+    }
+    if h == 24 || ns == 1_000_000_000 {
+        return (Want::DontCare, "dc/hour24-or-ns1e9");
     }
     (Want::Accept, "valid")
 }
@@ -330,7 +335,7 @@ pub fn run(cfg: &Cfg, rep: &mut Rep) {
         }
         for (m, d) in [(6u8, 30u8), (12, 31), (3, 31), (6, 29), (12, 30), (1, 1), (7, 1)] {
             for ts in SCALES {
-                for (h, mi) in [(23u8, 59u8), (23, 58), (22, 59), (0, 0), (12, 30), (23, 60), (24, 59), (25, 59), (23, 255)] {
+                for (h, mi) in [(23u8, 59u8), (23, 58), (22, 59), (0, 0), (12, 30), (23, 60), (24, 59), (24, 0), (24, 30), (25, 59), (23, 255)] {
                     for ns in [0u32, 5, 999_999_999, 1_000_000_000, 1_000_000_001, 2_000_000_000, u32::MAX] {
                         check(rep, &tab, y, m, d, h, mi, 60, ns, ts, false);
                     }
